@@ -212,7 +212,22 @@ impl Pager {
             .truncate(false)
             .open(&path)?;
 
-        if !existed || file.metadata()?.len() == 0 {
+        // A crash during the very first open can leave a sized file whose meta page was
+        // never written: that is still an empty database, not a corrupt one.
+        let never_initialized = |file: &File| -> Result<bool> {
+            let len = file.metadata()?.len();
+            if len == 0 {
+                return Ok(true);
+            }
+            if len < PAGE_SIZE as u64 {
+                return Ok(false);
+            }
+            let mut meta_page = [0u8; PAGE_SIZE];
+            read_page_raw(file, META_PAGE_ID, &mut meta_page)?;
+            Ok(meta_page.iter().all(|b| *b == 0))
+        };
+
+        if !existed || never_initialized(&file)? {
             let meta = Meta::new();
             let bitmap = Bitmap::new();
             #[cfg(luqing_studio_nervusdb_verif)]
